@@ -286,6 +286,60 @@ def case_concat(ctx, ty=None):
                  features=(f"parts={len(subs)}",), nontrivial=any(x.nontrivial() for x in subs))
 
 
+def case_result_is_new_sequence(ctx, s: Subject):
+    """Every operation that returns a column returns a NEW sequence (as `list` operations do): assigning an
+    element of the result leaves the source as it was, and the other way round."""
+    rng = ctx.rng
+    n = len(s.content["rows"])
+    if n == 0:
+        return
+    ty = s.ty
+    empty = lambda e: e[np.zeros(len(e), dtype=bool)]   # noqa: E731
+    producers = {
+        "slice_all": lambda e: e[:],
+        "take_all": lambda e: e.take(np.arange(len(e))),
+        "mask_all": lambda e: e[np.ones(len(e), dtype=bool)],
+        "ints_all": lambda e: e[np.arange(len(e))],
+        "copy": lambda e: e.copy(),
+        "concat_one": lambda e: NestedExtensionArray._concat_same_type([e]),
+        "concat_tail_empty": lambda e: NestedExtensionArray._concat_same_type([e, empty(e)]),
+        "concat_head_empty": lambda e: NestedExtensionArray._concat_same_type([empty(e), e]),
+        "concat_slice_empty": lambda e: NestedExtensionArray._concat_same_type([e, e[0:0]]),
+        "pd_concat_empty": lambda e: pd.concat([pd.Series(e), pd.Series(e).iloc[0:0]]).array,
+        "dropna": lambda e: e.dropna(),
+        "pickle": lambda e: pickle.loads(pickle.dumps(e)),
+    }
+    name = rng.choice(list(producers))
+    src = s.fresh_ext()
+    before = weak_rows(export.rows_view(src))
+    r = call_real(lambda: producers[name](src))
+    if "err" in r:
+        return
+    res = r["ok"]
+    if len(res) == 0:
+        return
+    res_before = weak_rows(export.rows_view(res))
+    row = gen.rand_row(rng, ty, p_missing=0.3, maxlen=4)
+
+    def mutate_result():
+        res[rng.randrange(len(res))] = df_of_row(row, ty)
+        return weak_rows(export.rows_view(src))
+    real = call_real(mutate_result)
+    ctx.case(f"new_sequence.{name}.source_after_result_edit", {**s.desc(), "row": row}, real, None, {"ok": before}, hyp=s.hyp,
+             features=s.features + (name,), nontrivial=True)
+    res2 = call_real(lambda: producers[name](src))
+    if "ok" in res2 and len(res2["ok"]):
+        res2 = res2["ok"]
+        r2_before = weak_rows(export.rows_view(res2))
+
+        def mutate_source():
+            src[rng.randrange(n)] = df_of_row(row, ty)
+            return weak_rows(export.rows_view(res2))
+        real = call_real(mutate_source)
+        ctx.case(f"new_sequence.{name}.result_after_source_edit", {**s.desc(), "row": row}, real, None, {"ok": r2_before},
+                 hyp=s.hyp, features=s.features + (name,), nontrivial=True)
+
+
 def case_simple(ctx, s: Subject):
     ext = s.fresh_ext()
     ans = ctx.driver.call("dropna", col=s.phys)
